@@ -227,6 +227,7 @@ def add_law_metadata(citation: FullLawCitation, words: Tokens) -> None:
     citation.metadata.day = m["day"]
     citation.metadata.month = m["month"]
     citation.metadata.parenthetical = process_parenthetical(m["parenthetical"])
+    trim_full_span_to_parenthetical(citation, m["parenthetical"])
     citation.metadata.year = m["year"]
     if m["year"]:
         citation.year = get_year(m["year"])
@@ -246,9 +247,26 @@ def add_journal_metadata(citation: FullJournalCitation, words: Tokens) -> None:
     citation.full_span_end = citation.span()[1] + m.end()
     citation.metadata.pin_cite = clean_pin_cite(m["pin_cite"]) or None
     citation.metadata.parenthetical = process_parenthetical(m["parenthetical"])
+    trim_full_span_to_parenthetical(citation, m["parenthetical"])
     citation.metadata.year = m["year"]
     if m["year"]:
         citation.year = get_year(m["year"])
+
+
+def trim_full_span_to_parenthetical(
+    citation: ResourceCitation, matched_parenthetical: Optional[str]
+) -> None:
+    """The parenthetical regex is greedy and may run on to a later, unrelated
+    closing paren; when process_parenthetical() trimmed the text, end the
+    full span at the citation's own closing paren as well."""
+    parenthetical = citation.metadata.parenthetical
+    if (
+        citation.full_span_end
+        and matched_parenthetical is not None
+        and isinstance(parenthetical, str)
+        and len(matched_parenthetical) > len(parenthetical)
+    ):
+        citation.full_span_end -= len(matched_parenthetical) - len(parenthetical)
 
 
 def clean_pin_cite(pin_cite: Optional[str]) -> Optional[str]:
